@@ -77,3 +77,99 @@ mod c16 {
         }
     }
 }
+
+#[cfg(kani)]
+mod bits {
+    use garble_lang::verif_hooks::*;
+
+    /// C09: unsigned_to_bits appends exactly `size` bits, bit i being bit size-1-i of n (big-endian), for every
+    /// u64 and every size <= 64; wires_as_unsigned decodes them back to n whenever n fits `size` bits.
+    /// COMPLETE over u64 x {0..=64}: every loop is unrolled to its width-bounded maximum (unwinding assertions on).
+    #[kani::proof]
+    #[kani::unwind(66)]
+    fn c09_unsigned_to_bits_layout_and_roundtrip() {
+        let n: u64 = kani::any();
+        let size: usize = kani::any();
+        kani::assume(size <= 64);
+        let mut bits = Vec::new();
+        unsigned_to_bits(n, size, &mut bits);
+        assert!(bits.len() == size);
+        let i: usize = kani::any();
+        kani::assume(i < size);
+        assert!(bits[i] == ((n >> (size - 1 - i)) & 1 == 1));
+        if size == 64 || n < (1u64 << size) {
+            assert!(wires_as_unsigned(&bits) == n);
+        }
+    }
+
+    /// C09: signed_to_bits is the big-endian two's complement of n in `size` bits.
+    #[kani::proof]
+    #[kani::unwind(66)]
+    fn c09_signed_to_bits_layout() {
+        let n: i64 = kani::any();
+        let size: usize = kani::any();
+        kani::assume(size <= 64);
+        let mut bits = Vec::new();
+        signed_to_bits(n, size, &mut bits);
+        assert!(bits.len() == size);
+        let i: usize = kani::any();
+        kani::assume(i < size);
+        assert!(bits[i] == ((n >> (size - 1 - i)) & 1 == 1));
+    }
+
+    /// C02: the 32 constant wires of unsigned_as_usize_bits(n) are the big-endian low 32 bits of n (contract assumed by
+    /// the Verus unit `panic`).  COMPLETE over u64.
+    #[kani::proof]
+    #[kani::unwind(34)]
+    fn c02_unsigned_as_usize_bits() {
+        let n: u64 = kani::any();
+        let bits = unsigned_as_usize_bits(n);
+        let i: usize = kani::any();
+        kani::assume(i < 32);
+        assert!(bits[i] == ((n >> (31 - i)) & 1) as usize);
+    }
+
+    fn extend(old: usize, new: usize) {
+        let signed: bool = kani::any();
+        let mut v: Vec<usize> = Vec::new();
+        for _ in 0..old {
+            v.push(kani::any());
+        }
+        let orig = v.clone();
+        extend_to_bits(&mut v, signed, new);
+        assert!(v.len() == new);
+        let i: usize = kani::any();
+        kani::assume(i < new);
+        if i >= new - old {
+            assert!(v[i] == orig[i - (new - old)], "low bits preserved");
+        } else if signed {
+            assert!(v[i] == orig[0], "high bits are copies of the sign bit");
+        } else {
+            assert!(v[i] == 0, "high bits are zero");
+        }
+    }
+
+    /// C03: cast helper extend_to_bits, symbolic wires and signedness; one harness per widening (old, new) pair.
+    #[kani::proof]
+    #[kani::unwind(66)]
+    fn c03_extend_8_16() { extend(8, 16) }
+    #[kani::proof]
+    #[kani::unwind(66)]
+    fn c03_extend_8_32() { extend(8, 32) }
+    #[kani::proof]
+    #[kani::unwind(66)]
+    fn c03_extend_8_64() { extend(8, 64) }
+    #[kani::proof]
+    #[kani::unwind(66)]
+    fn c03_extend_16_32() { extend(16, 32) }
+    #[kani::proof]
+    #[kani::unwind(66)]
+    fn c03_extend_16_64() { extend(16, 64) }
+    #[kani::proof]
+    #[kani::unwind(66)]
+    fn c03_extend_32_64() { extend(32, 64) }
+    #[kani::proof]
+    #[kani::unwind(66)]
+    fn c03_extend_1_8() { extend(1, 8) }
+}
+
